@@ -6,7 +6,7 @@ from ..core import Report, Finding, AnalysisError, VERIF_ROOT
 from ..facts import Facts
 from ..astutil import unparse, dotted, walk_no_nested
 from ..callgraph import CallGraph
-from ..pathwalk import Walker, PathState
+from ..pathwalk import Walker, PathState, show
 from ..passorder import Pipeline, origins, show as show_value
 from .. import purity
 
@@ -92,6 +92,10 @@ def _facts_of(fn):
     return _FACTS[id(root)]
 
 
+def mentions_name(v, name):
+    return v == ('name', name) or (isinstance(v, tuple) and any(mentions_name(x, name) for x in v if isinstance(x, tuple)))
+
+
 def getcwd_allowed(fn, node, facts=None):
     """os.getcwd() is evaluated only on paths where `os.path.exists(<a parameter>)` is known to be false, i.e. where the input is a
     source *string* and not a file (decided on the enumerated paths of the function: the test may be spelled through a local, negated,
@@ -113,13 +117,25 @@ def getcwd_allowed(fn, node, facts=None):
             continue
         found = True
         ok = False
+        bad = False
+        other = None
         for t, pol, _ in p.conds:
             while t[0] == 'un' and t[1] == 'not':
                 t, pol = t[2], not pol
-            if t[0] == 'call' and t[1] in EXISTENCE_TESTS and len(t[2]) == 1 and t[2][0][0] == 'name' and t[2][0][1] in params and pol is False:
-                ok = True
-        if not ok:
+            if t[0] == 'call' and t[1] in EXISTENCE_TESTS and len(t[2]) == 1 and t[2][0][0] == 'name' and t[2][0][1] in params:
+                if pol is False:
+                    ok = True
+                else:
+                    bad = True
+            elif any(mentions_name(t, a) for a in params):
+                other = t
+        if ok:
+            continue
+        if bad or other is None:
+            # consulted although the input is a file, or whatever the input is
             return False
+        # consulted under a condition on the inputs that is not the existence test (a flag or None computed by the caller)
+        raise AnalysisError('{}: the conditions under which the working directory (os.getcwd()) is consulted are not understood ({})'.format(fn.name, show(other)[:60]))
     if not found:
         raise AnalysisError('os.getcwd() in {} is not on any enumerated path'.format(fn.name))
     return True
